@@ -47,7 +47,8 @@ Definition inf_flag (p : nat) (o : option R) : nat -> bool :=
 Lemma samples_mono ops : forall s e, In e (m_samples s) -> In e (m_samples (mrun ops s)).
 Proof.
   induction ops as [|o ops IH]; intros s e H; cbn [mrun fold_left]; [exact H|].
-  apply (IH (mstep s o)). destruct o; cbn [mstep m_samples]; [exact H|apply in_or_app; left; exact H..].
+  apply (IH (mstep s o)). destruct o as [| | | | | | | | | |? ? ? []]; cbn [mstep m_samples];
+    [exact H|apply in_or_app; left; exact H..].
 Qed.
 
 Lemma mstat_recorded ops f : forall s,
@@ -86,6 +87,57 @@ Proof.
   rewrite He in H. destruct H.
 Qed.
 
+Lemma mem_fresh n k (d : pdict) : keys_below n d = true -> (n <= k)%nat -> mem Nat.eqb k d = false.
+Proof.
+  intros Hk Hle. unfold mem. destruct (lookup Nat.eqb k d) eqn:Hl; [|reflexivity]. exfalso.
+  assert (Hin : In k (keys d)).
+  { clear - Hl. induction d as [|[k' v] d IH]; cbn [lookup] in Hl; [discriminate|].
+    destruct (Nat.eqb_spec k k') as [->|]; [left; reflexivity|right; exact (IH Hl)]. }
+  pose proof (proj1 (keys_below_iff n d) Hk k Hin). lia.
+Qed.
+
+(** the (sub)gradient (x0 - x) / gamma recorded by an inexact proximal step 'PD_gapIII' mentions the fresh leaf x *)
+Lemma ip3_grad_nonempty n (x0 : pdict) gamma :
+  keys_below n x0 = true -> qpos gamma = true -> ip3_grad n x0 gamma <> [].
+Proof.
+  intros Hk Hpos He. pose proof (qpos_pos gamma Hpos) as Hg.
+  pose proof (mem_fresh n n x0 Hk (Nat.le_refl n)) as Hmem.
+  assert (Hin0 : exists c0, In (n, c0) (p_sub x0 [(n, 1%Q)]) /\ Q2R c0 = -1).
+  { eexists. split.
+    - unfold p_sub, p_add, prune. apply filter_In. split.
+      + unfold pmerge, merge. apply in_or_app. right. cbn [p_neg p_scal scale map filter]. rewrite Hmem. left. reflexivity.
+      + reflexivity.
+    - unfold Q2R. cbn. lra. }
+  destruct Hin0 as (c0 & Hin0 & Hc0).
+  assert (Hin : In (n, (c0 * (1 / gamma))%Q) (ip3_grad n x0 gamma)).
+  { unfold ip3_grad, prune. apply filter_In. split.
+    - unfold p_div, p_scal, scale. apply in_map_iff. exists (n, c0). split; [reflexivity|exact Hin0].
+    - unfold nonzero. apply negb_true_iff. destruct (Qeq_bool (c0 * (1 / gamma)) 0) eqn:Hc; [|reflexivity]. exfalso.
+      apply Qeq_bool_eq in Hc. apply Qeq_eqR in Hc. rewrite Q2R_mult, RMicromega.Q2R_0, Hc0 in Hc.
+      rewrite (SemLemmas.Q2R_one_div gamma (qpos_nz gamma Hg)) in Hc.
+      assert (0 < 1 / Q2R gamma) by (apply Rdiv_lt_0_compat; lra). lra. }
+  rewrite He in Hin. destruct Hin.
+Qed.
+
+(** the dual point recorded by a Bregman proximal step of non-zero step size mentions the fresh leaf gx *)
+Lemma breg_dual_fresh_nonempty n k (sx0 : pdict) gamma :
+  keys_below n sx0 = true -> (n <= k)%nat -> Qeq_bool gamma 0 = false -> breg_dual sx0 [(k, 1%Q)] gamma <> [].
+Proof.
+  intros Hk Hle Hg He.
+  set (c := (1 * gamma * -1)%Q).
+  assert (Hc : nonzero c = true).
+  { unfold nonzero. apply negb_true_iff. destruct (Qeq_bool c 0) eqn:Hc; [|reflexivity]. exfalso.
+    apply Qeq_bool_eq in Hc. assert (Hz : (gamma == 0)%Q).
+    { setoid_replace gamma with (- c)%Q by (unfold c; ring). rewrite Hc. reflexivity. }
+    apply Qeq_eq_bool in Hz. congruence. }
+  pose proof (mem_fresh n k sx0 Hk Hle) as Hmem.
+  assert (Hin : In (k, c) (breg_dual sx0 [(k, 1%Q)] gamma)).
+  { unfold breg_dual, p_sub, p_add, prune. apply filter_In. split; [|exact Hc]. apply filter_In. split; [|exact Hc].
+    unfold pmerge, merge. apply in_or_app. right. cbn [p_neg p_scal scale map filter]. fold c.
+    rewrite Hmem. left. reflexivity. }
+  rewrite He in Hin. destruct Hin.
+Qed.
+
 Section StatInv.
   Context {E : ips}.
   Variable W : @world E.
@@ -96,15 +148,17 @@ Section StatInv.
     forall f x fx, In (f, (x, [], fx)) (m_samples s) ->
       keys_below (m_np s) x = true /\ veq (evalP (fst vs) x) (fst (stat W f)).
 
-  Lemma SInv_step s vs o : SInv s vs -> linopt_dir_nonzero o = true -> SInv (mstep s o) (wstep W vs s o).
+  Lemma SInv_step s vs o :
+    SInv s vs -> op_wf s o = true -> linopt_dir_nonzero o = true -> SInv (mstep s o) (wstep W vs s o).
   Proof.
-    intros HI Hnz f x fx Hin.
+    intros HI Hwf Hnz f x fx Hin.
     destruct (wstep_agree W vs s o) as [Hr _]. destruct (mstep_counters s o) as [Hc _].
     assert (Hold : In (f, (x, [], fx)) (m_samples s) ->
               keys_below (m_np (mstep s o)) x = true /\ veq (evalP (fst (wstep W vs s o)) x) (fst (stat W f))).
     { intros H. destruct (HI f x fx H) as [Hk Hv]. split; [exact (keys_below_mono _ _ x Hc Hk)|].
       rewrite (evalP_agree (fst vs) _ (m_np s) x Hk Hr). exact Hv. }
-    destruct o as [|g p|g|g p gamma|g dir|g p rel eps|g x0 dirs]; cbn [mstep m_samples] in Hin.
+    destruct o as [|g p|g|g p gamma|g dir|g p rel eps|g x0 dirs|g p|h gx0 sx0 gamma|h g sx0 gamma|g x0 gamma opt];
+      cbn [mstep m_samples] in Hin.
     - apply Hold, Hin.
     - apply in_app_or in Hin as [Hin|[Heq|[]]]; [apply Hold, Hin|discriminate Heq].
     - apply in_app_or in Hin as [Hin|[Heq|[]]]; [apply Hold, Hin|]. injection Heq as <- <- <-. split.
@@ -116,41 +170,59 @@ Section StatInv.
       cbn [linopt_dir_nonzero] in Hnz. injection Heq as _ _ Hg _. rewrite Hg in Hnz. discriminate Hnz.
     - apply in_app_or in Hin as [Hin|[Heq|[]]]; [apply Hold, Hin|discriminate Heq].
     - apply in_app_or in Hin as [Hin|[Heq|[]]]; [apply Hold, Hin|discriminate Heq].
+    - apply in_app_or in Hin as [Hin|[Heq|[Heq|[]]]]; [apply Hold, Hin|discriminate Heq|discriminate Heq].
+    - apply in_app_or in Hin as [Hin|[Heq|[]]]; [apply Hold, Hin|].
+      cbn [linopt_dir_nonzero] in Hnz. injection Heq as _ _ Hg _. rewrite Hg in Hnz. discriminate Hnz.
+    - apply in_app_or in Hin as [Hin|[Heq|[Heq|[]]]]; [apply Hold, Hin|discriminate Heq|].
+      cbn [linopt_dir_nonzero op_wf] in Hnz, Hwf. apply andb_prop in Hwf as [Hwf _]. apply andb_prop in Hwf as [Hk _].
+      injection Heq as _ _ Hg _. exfalso.
+      apply (breg_dual_fresh_nonempty (m_np s) (S (m_np s)) sx0 gamma Hk (Nat.le_succ_diag_r _)); [|exact Hg].
+      apply negb_true_iff. exact Hnz.
+    - cbn [op_wf] in Hwf. apply andb_prop in Hwf as [Hwf Hpos]. apply andb_prop in Hwf as [Hk _].
+      destruct opt; cbn [mstep m_samples] in Hin.
+      + apply in_app_or in Hin as [Hin|[Heq|[Heq|[]]]]; [apply Hold, Hin|discriminate Heq|discriminate Heq].
+      + apply in_app_or in Hin as [Hin|[Heq|[]]]; [apply Hold, Hin|discriminate Heq].
+      + apply in_app_or in Hin as [Hin|[Heq|[Heq|[]]]]; [apply Hold, Hin|discriminate Heq|].
+        injection Heq as _ _ Hgr _. exfalso. exact (ip3_grad_nonempty (m_np s) x0 gamma Hk Hpos Hgr).
   Qed.
 
   (** (a linear-optimization step along the zero direction would record a sample with an empty gradient
       dictionary at a point that need not be the stationary point: excluded) *)
   Theorem stationary_samples_at_stat ops : forall s vs,
-    forallb linopt_dir_nonzero ops = true -> SInv s vs -> SInv (mrun ops s) (wrun W ops s vs).
+    mwf ops s = true -> forallb linopt_dir_nonzero ops = true -> SInv s vs -> SInv (mrun ops s) (wrun W ops s vs).
   Proof.
-    induction ops as [|o ops IH]; intros s vs Hnz HI; cbn [mrun fold_left wrun]; [exact HI|].
+    induction ops as [|o ops IH]; intros s vs Hwf Hnz HI; cbn [mrun fold_left wrun]; [exact HI|].
     cbn [forallb] in Hnz. apply andb_prop in Hnz as [Ho Hnz].
-    apply (IH (mstep s o) _ Hnz). apply SInv_step; assumption.
+    cbn [mwf] in Hwf. apply andb_prop in Hwf as [Hwo Hwf].
+    apply (IH (mstep s o) _ Hwf Hnz). apply SInv_step; assumption.
   Qed.
 
-  (** worlds without a linear minimisation oracle: no such step at all *)
+  (** worlds without a linear minimisation oracle, mirror maps and Bregman proximal operators: no such step at all *)
   Lemma no_lmo_nonzero ops :
-    (forall f, has_lmo W f = false) -> steps_ok W ops = true -> forallb linopt_dir_nonzero ops = true.
+    (forall f, has_lmo W f = false) -> (forall h, has_mirror W h = false) -> (forall h f, has_bprox W h f = false) ->
+    steps_ok W ops = true -> forallb linopt_dir_nonzero ops = true.
   Proof.
-    intros Hno. unfold steps_ok. induction ops as [|o ops IH]; cbn [forallb]; [reflexivity|].
+    intros Hno Hnm Hnb. unfold steps_ok. induction ops as [|o ops IH]; cbn [forallb]; [reflexivity|].
     intros H. apply andb_prop in H as [Ho H]. rewrite (IH H), andb_true_r.
-    destruct o as [|g p|g|g p gamma|g dir|g p rel eps|g x0 dirs]; try reflexivity. cbn [step_ok] in Ho. rewrite Hno in Ho. discriminate Ho.
+    destruct o as [|g p|g|g p gamma|g dir|g p rel eps|g x0 dirs|g p|h gx0 sx0 gamma|h g sx0 gamma|g x0 gamma opt]; try reflexivity;
+      cbn [step_ok] in Ho; rewrite ?Hno, ?Hnm, ?Hnb in Ho; discriminate Ho.
   Qed.
 
   (** ... as the class generator sees them *)
   Lemma f_stat_at_stat par ops vs f sm :
+    mwf ops minit = true ->
     forallb linopt_dir_nonzero ops = true ->
     In sm (f_stat (fstate_of par (mrun ops minit) f)) ->
     In sm (f_points (fstate_of par (mrun ops minit) f)) /\ s_g sm = [] /\
     veq (px (fst (wrun W ops minit vs)) sm) (fst (stat W f)).
   Proof.
-    cbn [fstate_of f_stat f_points]. intros Hnz Hin. apply filter_In in Hin as [Hin Hst].
+    cbn [fstate_of f_stat f_points]. intros Hwf0 Hnz Hin. apply filter_In in Hin as [Hin Hst].
     assert (Hg : s_g sm = []) by (unfold is_stationary in Hst; destruct (s_g sm); [reflexivity|discriminate]).
     split; [exact Hin|]. split; [exact Hg|].
     apply In_to_samples in Hin as (t & Ht & Ex & Eg & Ef). apply In_samples_of in Ht.
     destruct t as [[x g] fx]. cbn [fst snd] in *. rewrite Hg in Eg. subst g.
     assert (H0 : SInv minit vs) by (intros ? ? ? []).
-    destruct (stationary_samples_at_stat ops minit vs Hnz H0 f x fx Ht) as [_ Hv].
+    destruct (stationary_samples_at_stat ops minit vs Hwf0 Hnz H0 f x fx Ht) as [_ Hv].
     unfold px. rewrite Ex. exact Hv.
   Qed.
 End StatInv.
@@ -235,9 +307,9 @@ Section All.
       pose proof (mstat_f_stat par ops 0 Hin) as Hne.
       apply (c03_RsiEbFunction _ _ mu L F); try assumption;
         rewrite (start_state_recorded _ _ Hne); try assumption.
-      - intros sm Hsm. destruct (f_stat_at_stat W par ops vs 0 sm (no_lmo_nonzero W ops (fun _ => eq_refl) Hpx) Hsm) as (_ & _ & Hv).
+      - intros sm Hsm. destruct (f_stat_at_stat W par ops vs 0 sm Hwf (no_lmo_nonzero W ops (fun _ => eq_refl) (fun _ => eq_refl) (fun _ _ => eq_refl) Hpx) Hsm) as (_ & _ & Hv).
         apply rsi_eb_member_veq; [exact HF|exact Hv].
-      - intros sm Hsm. destruct (f_stat_at_stat W par ops vs 0 sm (no_lmo_nonzero W ops (fun _ => eq_refl) Hpx) Hsm) as (Hp & _ & _). exact (Hgen sm Hp).
+      - intros sm Hsm. destruct (f_stat_at_stat W par ops vs 0 sm Hwf (no_lmo_nonzero W ops (fun _ => eq_refl) (fun _ => eq_refl) (fun _ _ => eq_refl) Hpx) Hsm) as (Hp & _ & _). exact (Hgen sm Hp).
     Qed.
   End Dfn.
 
@@ -279,7 +351,7 @@ Section All.
       destruct (run_state_genuine W par ops vs 0 Hwf Hpx Hnd) as [Hst Hgen].
       pose proof (mstat_f_stat par ops 0 Hin) as Hne.
       apply (c03_ConvexQGFunction_recorded _ _ L F); try assumption.
-      intros sm Hsm. destruct (f_stat_at_stat W par ops vs 0 sm (no_lmo_nonzero W ops (fun _ => eq_refl) Hpx) Hsm) as (Hp & Hg & _).
+      intros sm Hsm. destruct (f_stat_at_stat W par ops vs 0 sm Hwf (no_lmo_nonzero W ops (fun _ => eq_refl) (fun _ => eq_refl) (fun _ _ => eq_refl) Hpx) Hsm) as (Hp & Hg & _).
       pose proof (Hgen sm Hp) as G. unfold sval, pg in G. rewrite Hg in G. exact G.
     Qed.
   End Fn.
@@ -323,7 +395,11 @@ Section All.
           (fun _ gamma x0 H Hg _ => Hres H gamma x0 Hg)
           (fun _ => hl) (fun _ d => (lm d, val F (lm d))) (fun _ d H _ => Hlm H d)
           (fun f _ _ x => sel x) (exact_inexact_bound (fun _ x => (sel x, val F x)))
-          (fun _ => false) (fun _ x0 _ => x0) (no_ls _ _).
+          (fun _ => false) (fun _ x0 _ => x0) (no_ls _ _)
+          (exact_epssub (fun _ x => (sel x, val F x))) (exact_epssub_spec (fun _ x => (sel x, val F x)) (fun _ t => pgen t) pfn_orc_genuine)
+          (fun _ => false) (fun _ sd => (sd, 0)) (no_mirror _ _)
+          (fun _ _ => false) (fun _ _ _ sd => ((sd, sd), (0, 0))) (no_bprox _ _)
+          (exact_iprox (fun _ x => (sel x, val F x))) (exact_iprox_spec (fun _ x => (sel x, val F x)) (fun _ t => pgen t) pfn_orc_genuine pfn_gen_veq).
 
     Variable ops : list mop.
     Variable vs : (nat -> E) * (nat -> R).
@@ -404,7 +480,11 @@ Section All.
           (fun _ gamma x0 H Hg => Hres H gamma x0 Hg)
           (fun _ => false) (fun _ d => (d, 0)) (no_lmo _ _)
           (fun f _ _ x => fst ((fun _ x => (sel x, sigma x)) f x)) (exact_inexact_bound (fun _ x => (sel x, sigma x)))
-          (fun _ => false) (fun _ x0 _ => x0) (no_ls _ _).
+          (fun _ => false) (fun _ x0 _ => x0) (no_ls _ _)
+          (exact_epssub (fun _ x => (sel x, sigma x))) (exact_epssub_spec (fun _ x => (sel x, sigma x)) (fun _ t => genuine_support C sigma t) sup_orc_genuine)
+          (fun _ => false) (fun _ sd => (sd, 0)) (no_mirror _ _)
+          (fun _ _ => false) (fun _ _ _ sd => ((sd, sd), (0, 0))) (no_bprox _ _)
+          (exact_iprox (fun _ x => (sel x, sigma x))) (exact_iprox_spec (fun _ x => (sel x, sigma x)) (fun _ t => genuine_support C sigma t) sup_orc_genuine sup_gen_veq).
 
     Theorem run_satisfies_convex_support (M : option R) (qM : Q) ops vs :
       support_member M C sigma -> (forall m, M = Some m -> Q2R qM = m) ->
@@ -450,7 +530,11 @@ Section All.
           (fun _ gamma x0 H Hg => Hres H gamma x0 Hg)
           (fun _ => false) (fun _ d => (d, 0)) (no_lmo _ _)
           (fun f _ _ x => fst ((fun _ x => (T x, 0)) f x)) (exact_inexact_bound (fun _ x => (T x, 0)))
-          (fun _ => false) (fun _ x0 _ => x0) (no_ls _ _).
+          (fun _ => false) (fun _ x0 _ => x0) (no_ls _ _)
+          (exact_epssub (fun _ x => (T x, 0))) (exact_epssub_spec (fun _ x => (T x, 0)) (fun _ t => genuine_op A t) graph_orc_genuine)
+          (fun _ => false) (fun _ sd => (sd, 0)) (no_mirror _ _)
+          (fun _ _ => false) (fun _ _ _ sd => ((sd, sd), (0, 0))) (no_bprox _ _)
+          (exact_iprox (fun _ x => (T x, 0))) (exact_iprox_spec (fun _ x => (T x, 0)) (fun _ t => genuine_op A t) graph_orc_genuine graph_gen_veq).
 
     Variable ops : list mop.
     Variable vs : (nat -> E) * (nat -> R).
@@ -536,7 +620,11 @@ Section All.
           (fun _ gamma x0 H Hg => Hres H gamma x0 Hg)
           (fun _ => false) (fun _ d => (d, 0)) (no_lmo _ _)
           (fun f _ _ x => fst ((fun _ x => (M x, 0)) f x)) (exact_inexact_bound (fun _ x => (M x, 0)))
-          (fun _ => false) (fun _ x0 _ => x0) (no_ls _ _).
+          (fun _ => false) (fun _ x0 _ => x0) (no_ls _ _)
+          (exact_epssub (fun _ x => (M x, 0))) (exact_epssub_spec (fun _ x => (M x, 0)) (fun _ t => genuine_lin M t) lin_orc_genuine)
+          (fun _ => false) (fun _ sd => (sd, 0)) (no_mirror _ _)
+          (fun _ _ => false) (fun _ _ _ sd => ((sd, sd), (0, 0))) (no_bprox _ _)
+          (exact_iprox (fun _ x => (M x, 0))) (exact_iprox_spec (fun _ x => (M x, 0)) (fun _ t => genuine_lin M t) lin_orc_genuine lin_gen_veq).
 
     Variable ops : list mop.
     Variable vs : (nat -> E) * (nat -> R).
@@ -592,7 +680,11 @@ Section All.
           (fun _ => false) (fun _ _ x0 => x0) (fun _ _ _ => 0) lin2_prox_genuine
           (fun _ => false) (fun _ d => (d, 0)) (no_lmo _ _)
           (fun f _ _ x => fst ((fun f x => (pick f x, 0)) f x)) (exact_inexact_bound (fun f x => (pick f x, 0)))
-          (fun _ => false) (fun _ x0 _ => x0) (no_ls _ _).
+          (fun _ => false) (fun _ x0 _ => x0) (no_ls _ _)
+          (exact_epssub (fun f x => (pick f x, 0))) (exact_epssub_spec (fun f x => (pick f x, 0)) (fun f t => genuine_lin (pick f) t) (fun f => lin_orc_genuine (pick f) f))
+          (fun _ => false) (fun _ sd => (sd, 0)) (no_mirror _ _)
+          (fun _ _ => false) (fun _ _ _ sd => ((sd, sd), (0, 0))) (no_bprox _ _)
+          (exact_iprox (fun f x => (pick f x, 0))) (exact_iprox_spec (fun f x => (pick f x, 0)) (fun f t => genuine_lin (pick f) t) (fun f => lin_orc_genuine (pick f) f) (fun f => lin_gen_veq (pick f) f)).
 
     Theorem run_satisfies_linear (L : R) (qL : Q) ops vs :
       bounded_pair L M Mt -> Q2R qL = L ->
